@@ -50,25 +50,25 @@ fn tmproot(what: &str) -> PathBuf {
     base.join(format!("scrut-verif-cli-{what}-{}", std::process::id()))
 }
 
-struct Ran {
+pub(crate) struct Ran {
     /// None: killed by a signal
-    code: Option<i32>,
-    stdout: Vec<u8>,
-    stderr: Vec<u8>,
+    pub(crate) code: Option<i32>,
+    pub(crate) stdout: Vec<u8>,
+    pub(crate) stderr: Vec<u8>,
 }
 
 impl Ran {
-    fn show(&self) -> String {
+    pub(crate) fn show(&self) -> String {
         format!("exit {:?}, stderr {:?}", self.code, String::from_utf8_lossy(&self.stderr).chars().take(300).collect::<String>())
     }
     /// a Rust panic ends the process with 101, an abort with a signal
-    fn crashed(&self) -> bool {
+    pub(crate) fn crashed(&self) -> bool {
         self.code.is_none() || self.code == Some(101)
     }
 }
 
 /// one run of the binary: working directory = `cwd`, private TMPDIR `<case dir>/tmp`
-fn scrut(case_dir: &Path, cwd: &Path, args: &[String], stdin: Option<&[u8]>) -> Ran {
+pub(crate) fn scrut(case_dir: &Path, cwd: &Path, args: &[String], stdin: Option<&[u8]>) -> Ran {
     let mut cmd = std::process::Command::new(scrut_bin());
     cmd.args(args).current_dir(cwd).env("TMPDIR", case_dir.join("tmp")).env("NO_COLOR", "1").stdout(std::process::Stdio::piped()).stderr(std::process::Stdio::piped());
     cmd.stdin(if stdin.is_some() { std::process::Stdio::piped() } else { std::process::Stdio::null() });
@@ -81,11 +81,11 @@ fn scrut(case_dir: &Path, cwd: &Path, args: &[String], stdin: Option<&[u8]>) -> 
     Ran { code: out.status.code(), stdout: out.stdout, stderr: out.stderr }
 }
 
-fn sv(xs: &[&str]) -> Vec<String> {
+pub(crate) fn sv(xs: &[&str]) -> Vec<String> {
     xs.iter().map(|s| s.to_string()).collect()
 }
 
-fn fresh_dir(root: &Path, name: String) -> PathBuf {
+pub(crate) fn fresh_dir(root: &Path, name: String) -> PathBuf {
     let dir = root.join(name);
     let _ = std::fs::remove_dir_all(&dir);
     std::fs::create_dir_all(dir.join("tmp")).unwrap();
@@ -419,7 +419,7 @@ fn maker(cram: bool) -> Arc<ExpectationMaker> {
 }
 
 /// the way file_parser.rs reads a document (without `--cram-compat`): parser by file extension, default configurations
-fn file_parse(fmt: ParserType, text: &str) -> Result<Vec<TestCase>, String> {
+pub(crate) fn file_parse(fmt: ParserType, text: &str) -> Result<Vec<TestCase>, String> {
     let r = guarded(|| match fmt {
         ParserType::Markdown => MarkdownParser::new(maker(false), DEFAULT_MARKDOWN_LANGUAGES, None).parse(text),
         ParserType::Cram => CramParser::new(maker(true), DEFAULT_CRAM_INDENTION).parse(text),
@@ -537,7 +537,7 @@ fn known_outcomes(p: &UpdParams, tcs: &[TestCase], escaper: &Escaper, fmt: Parse
         .collect()
 }
 
-fn scrut_bodies(doc: &str) -> Vec<Vec<String>> {
+pub(crate) fn scrut_bodies(doc: &str) -> Vec<Vec<String>> {
     c10_ref_segments(doc).into_iter().filter_map(|s| if let RefSeg::Scrut { body, .. } = s { Some(body) } else { None }).collect()
 }
 
